@@ -95,10 +95,10 @@ fn machine<V: Send + Sync + 'static, E: El>(rep: &mut Report, d: Desc<V, E>) {
 }
 
 fn any_elem<E: El>(rep: &mut Report) {
-    machine(rep, d_v1::<E>());
-    machine(rep, d_v2::<E>());
-    machine(rep, d_v3::<E>());
-    machine(rep, d_v4::<E>());
+    machine(rep, dc_v1::<E>());
+    machine(rep, dc_v2::<E>());
+    machine(rep, dc_v3::<E>());
+    machine(rep, dc_v4::<E>());
     machine(rep, d_p1::<E>());
     machine(rep, d_p2::<E>());
     machine(rep, d_p3::<E>());
@@ -164,6 +164,42 @@ fn index_panics(rep: &mut Report) {
     probes.push(("Matrix3<f64>/swap_rows", 3, Box::new(|i| panics(|| { let mut m = Matrix3::<f64>::from_value(1.0); m.swap_rows(0, i); }))));
     probes.push(("Matrix3<f64>/swap_columns", 3, Box::new(|i| panics(|| { let mut m = Matrix3::<f64>::from_value(1.0); m.swap_columns(0, i); }))));
     probes.push(("Vector3/swap_elements", 3, Box::new(|i| panics(|| { let mut v = Vector3::new(1, 2, 3); Array::swap_elements(&mut v, 0, i); }))));
+    // every index argument of row / swap_rows / swap_columns / swap_elements, in every dimension (the three matrix types
+    // implement them separately), and both arguments of Array::swap_elements, also with i == j
+    macro_rules! mats {
+        ($M:ident, $n:expr) => {
+            probes.push((concat!(stringify!($M), "/row(i)"), $n, Box::new(|i| panics(|| $M::<f64>::from_value(1.0).row(i)))));
+            probes.push((concat!(stringify!($M), "/swap_rows(0,i)"), $n, Box::new(|i| panics(|| { let mut m = $M::<f64>::from_value(1.0); m.swap_rows(0, i); }))));
+            probes.push((concat!(stringify!($M), "/swap_rows(i,0)"), $n, Box::new(|i| panics(|| { let mut m = $M::<f64>::from_value(1.0); m.swap_rows(i, 0); }))));
+            probes.push((concat!(stringify!($M), "/swap_rows(i,i)"), $n, Box::new(|i| panics(|| { let mut m = $M::<f64>::from_value(1.0); m.swap_rows(i, i); }))));
+            probes.push((concat!(stringify!($M), "/swap_columns(0,i)"), $n, Box::new(|i| panics(|| { let mut m = $M::<f64>::from_value(1.0); m.swap_columns(0, i); }))));
+            probes.push((concat!(stringify!($M), "/swap_columns(i,0)"), $n, Box::new(|i| panics(|| { let mut m = $M::<f64>::from_value(1.0); m.swap_columns(i, 0); }))));
+            probes.push((concat!(stringify!($M), "/swap_columns(i,i)"), $n, Box::new(|i| panics(|| { let mut m = $M::<f64>::from_value(1.0); m.swap_columns(i, i); }))));
+            probes.push((concat!(stringify!($M), "/swap_elements((i,0),(0,0))"), $n, Box::new(|i| panics(|| { let mut m = $M::<f64>::from_value(1.0); cgmath::Matrix::swap_elements(&mut m, (i, 0), (0, 0)); }))));
+            probes.push((concat!(stringify!($M), "/swap_elements((0,i),(0,0))"), $n, Box::new(|i| panics(|| { let mut m = $M::<f64>::from_value(1.0); cgmath::Matrix::swap_elements(&mut m, (0, i), (0, 0)); }))));
+            probes.push((concat!(stringify!($M), "/swap_elements((0,0),(i,0))"), $n, Box::new(|i| panics(|| { let mut m = $M::<f64>::from_value(1.0); cgmath::Matrix::swap_elements(&mut m, (0, 0), (i, 0)); }))));
+            probes.push((concat!(stringify!($M), "/swap_elements((0,0),(0,i))"), $n, Box::new(|i| panics(|| { let mut m = $M::<f64>::from_value(1.0); cgmath::Matrix::swap_elements(&mut m, (0, 0), (0, i)); }))));
+            probes.push((concat!(stringify!($M), "/swap_elements((i,i),(i,i))"), $n, Box::new(|i| panics(|| { let mut m = $M::<f64>::from_value(1.0); cgmath::Matrix::swap_elements(&mut m, (i, i), (i, i)); }))));
+            probes.push((concat!(stringify!($M), "/replace_col(i)"), $n, Box::new(|i| panics(|| { let mut m = $M::<f64>::from_value(1.0); let c = m[0]; m.replace_col(i, c); }))));
+        };
+    }
+    mats!(Matrix2, 2);
+    mats!(Matrix3, 3);
+    mats!(Matrix4, 4);
+    macro_rules! arrs {
+        ($V:ident, $n:expr, $mk:expr) => {
+            probes.push((concat!(stringify!($V), "/swap_elements(0,i)"), $n, Box::new(|i| panics(|| { let mut v = $mk; Array::swap_elements(&mut v, 0, i); }))));
+            probes.push((concat!(stringify!($V), "/swap_elements(i,0)"), $n, Box::new(|i| panics(|| { let mut v = $mk; Array::swap_elements(&mut v, i, 0); }))));
+            probes.push((concat!(stringify!($V), "/swap_elements(i,i)"), $n, Box::new(|i| panics(|| { let mut v = $mk; Array::swap_elements(&mut v, i, i); }))));
+        };
+    }
+    arrs!(Vector1, 1, Vector1::new(1));
+    arrs!(Vector2, 2, Vector2::new(1, 2));
+    arrs!(Vector3, 3, Vector3::new(1, 2, 3));
+    arrs!(Vector4, 4, Vector4::new(1, 2, 3, 4));
+    arrs!(Point1, 1, Point1::new(1));
+    arrs!(Point2, 2, Point2::new(1, 2));
+    arrs!(Point3, 3, Point3::new(1, 2, 3));
     let np = probes.len();
     rep.cases(
         "index-panics",
@@ -271,40 +307,54 @@ include!(concat!(env!("OUT_DIR"), "/swizzle_table.rs"));
 
 fn swizzles(rep: &mut Report) {
     macro_rules! run_table {
-        ($name:expr, $table:expr, $mk:expr, $n:expr, $letters:expr) => {{
+        ($name:expr, $E:ty, $table:expr, $mk:expr, $n:expr, $letters:expr) => {{
             let table = $table;
             let total = table.len();
+            let name = format!("{}<{}>", $name, <$E as El>::NAME);
             rep.cases(
-                $name,
+                &name,
                 "L",
                 &format!("every word of length 1..{} over the letters `{}`: {total} accessors", if $name.starts_with("swizzle/Point") { 3 } else { 4 }, $letters),
                 total,
                 Guard::states(3).distinct(3),
                 |i, ctx| {
                     let (word, f) = table[i];
-                    ctx.describe(|| format!("{}.{word}()", $name));
+                    ctx.describe(|| format!("{}.{word}()", name));
                     ctx.out(&word);
-                    let v = $mk;
+                    let l = |k: usize| <$E as El>::label(k);
+                    let v = $mk(l);
                     let got = f(&v);
-                    let comps: Vec<i32> = (0..$n).map(|k| 10 + 7 * k as i32).collect();
-                    let want: Vec<i32> = word.chars().map(|c| comps[$letters.find(c).unwrap()]).collect();
+                    let want: Vec<$E> = word.chars().map(|c| l($letters.find(c).unwrap())).collect();
                     ctx.check(got == want, &key(&format!("{}/names-the-components", $name)), || format!("{word}() = {:?}, expected {:?} (dimension {})", got, want, word.len()));
                 },
             );
             total
         }};
     }
-    let mut total = 0;
-    total += run_table!("swizzle/Vector1", swizzle_vector1(), Vector1::new(10), 1, "x");
-    total += run_table!("swizzle/Vector2", swizzle_vector2(), Vector2::new(10, 17), 2, "xy");
-    total += run_table!("swizzle/Vector3", swizzle_vector3(), Vector3::new(10, 17, 24), 3, "xyz");
-    total += run_table!("swizzle/Vector4", swizzle_vector4(), Vector4::new(10, 17, 24, 31), 4, "xyzw");
-    total += run_table!("swizzle/Point1", swizzle_point1(), Point1::new(10), 1, "x");
-    total += run_table!("swizzle/Point2", swizzle_point2(), Point2::new(10, 17), 2, "xy");
-    total += run_table!("swizzle/Point3", swizzle_point3(), Point3::new(10, 17, 24), 3, "xyz");
+    macro_rules! all_tables {
+        (vectors: $E:ty) => {{
+            let mut t = 0;
+            t += run_table!("swizzle/Vector1", $E, swizzle_vector1::<$E>(), |l: fn(usize) -> $E| Vector1::new(l(0)), 1, "x");
+            t += run_table!("swizzle/Vector2", $E, swizzle_vector2::<$E>(), |l: fn(usize) -> $E| Vector2::new(l(0), l(1)), 2, "xy");
+            t += run_table!("swizzle/Vector3", $E, swizzle_vector3::<$E>(), |l: fn(usize) -> $E| Vector3::new(l(0), l(1), l(2)), 3, "xyz");
+            t += run_table!("swizzle/Vector4", $E, swizzle_vector4::<$E>(), |l: fn(usize) -> $E| Vector4::new(l(0), l(1), l(2), l(3)), 4, "xyzw");
+            t
+        }};
+        (points: $E:ty) => {{
+            let mut t = 0;
+            t += run_table!("swizzle/Point1", $E, swizzle_point1::<$E>(), |l: fn(usize) -> $E| Point1::new(l(0)), 1, "x");
+            t += run_table!("swizzle/Point2", $E, swizzle_point2::<$E>(), |l: fn(usize) -> $E| Point2::new(l(0), l(1)), 2, "xy");
+            t += run_table!("swizzle/Point3", $E, swizzle_point3::<$E>(), |l: fn(usize) -> $E| Point3::new(l(0), l(1), l(2)), 3, "xyz");
+            t
+        }};
+    }
+    let total = all_tables!(vectors: i32) + all_tables!(points: i32);
     if rep.replay.is_none() && total != 550 {
         rep.machinery.push(format!("swizzle table has {total} entries, expected 550"));
     }
+    // the same accessors over the other kinds of element: a float and an unsigned type for the vectors (their accessors need a
+    // numeric element), a non-numeric Copy struct for the points (theirs need Copy only)
+    let _ = all_tables!(vectors: f64) + all_tables!(vectors: u8) + all_tables!(points: f64) + all_tables!(points: Tag) + all_tables!(points: char);
 }
 
 fn main() {
